@@ -103,8 +103,11 @@ def corpus(tier):
 
 
 def bounds(tier):
+    _install()
     return {"corpus": len(corpus(tier)), "schedule_deviations": "1 site" if tier == "quick" else "1 occurrence, 2 sites", "history_depth": 2 if tier == "quick" else 3,
-            "history_alphabet": 12 if tier == "quick" else 16, "seeds": 8 if tier == "quick" else 32}
+            "history_alphabet": 12 if tier == "quick" else 16, "seeds": 8 if tier == "quick" else 32,
+            "harvested_programs": len(__import__("props.c10_harvest", fromlist=["x"]).hcorpus()), "harvested_schedules": "1 site (rev)" if tier == "quick" else "1 site (rev, rot1, swap01)",
+            "harvested_seeds": 6 if tier == "quick" else 24, "harvested_histories": "corpus in order, in reverse order" + ("" if tier == "quick" else ", every program first and then the corpus in order")}
 
 
 def units(tier):
@@ -112,7 +115,17 @@ def units(tier):
     u = [("sched", tier, i) for i in range(n)]
     k = 12 if tier == "quick" else 16
     u += [("hist", tier, i) for i in range(k)]
-    u += [("seeds", tier, 0)]
+    u += [("seeds", tier, 0), ("typing", tier, 0)]
+    # second corpus: the programs of pyanalyze's own test-suite (props/c10_harvest.py)
+    _install()        # harvesting imports pyanalyze: the instrumentation must be in place first (workers are forked from this process)
+    from props.c10_harvest import hcorpus
+    n = len(hcorpus())
+    step = HS_STEP
+    u += [("hsched", tier, i) for i in range(0, n, step)]
+    u += [("hseeds", tier, 0)]
+    u += [("hhist", tier, -1), ("hhist", tier, -2)]
+    if tier == "thorough":
+        u += [("hhist", tier, i) for i in range(0, n, HH_STEP)]
     return u
 
 
@@ -122,21 +135,25 @@ def _install():
     return ndimport
 
 
-def render(fails):
-    from pa.run import norm_text
-    return sorted((f["code"].name, f.get("lineno"), f.get("col_offset"), norm_text(f.get("description", ""))) for f in fails)
+def render_src(src, checker):
+    """diagnostics + the text reveal_type() would print at every expression node (recording visitor)"""
+    from props.c10_harvest import render_full
+    return render_full(src, checker)
 
 
 def _fresh_check(src):
-    from pa.run import check, make_checker
-    return render(check(src, checker=make_checker()))
+    from pa.run import make_checker
+    return render_src(src, make_checker())
 
 
 def _diff(a, b):
-    for x, y in zip(a, b):
-        if x != y:
-            return "%s  !=  %s" % (x[3][:160], y[3][:160])
-    return "different number of diagnostics: %d vs %d" % (len(a), len(b))
+    from props.c10_harvest import show_diff
+    return show_diff(a, b)
+
+
+def _what(a, b):
+    from props.c10_harvest import diff_kind
+    return diff_kind(a, b)
 
 
 def _sched(res, tier, pi, only=None):
@@ -196,7 +213,7 @@ def _sched(res, tier, pi, only=None):
         res.validated += 1
         res.outcomes["sched:%s" % ("same" if got == base else "differs")] += 1
         if got != base:
-            res.violation({"kind": "schedule-dependent-output", "site": _site_name(dev)}, dict(case0, policy=key, order=pi * 100000 + di),
+            res.violation({"kind": "schedule-dependent-output", "site": _site_name(dev), "what": _what(base, got)}, dict(case0, policy=key, order=pi * 100000 + di),
                           "iterating the set at %s in another order changes the diagnostics of\n%s\n%s" % (key, src[len(PRE):], _diff(base, got)))
     res.sample({"program": src[len(PRE):], "choice_sites": len(sites), "schedules": len(deviations)})
 
@@ -253,8 +270,10 @@ def _hist(res, tier, first, only=None):
     depth = 2 if tier == "quick" else 3
 
     def fresh_render(p):
-        from pa.run import check, make_checker
-        return render(check(progs[p], checker=make_checker()))
+        from pa.run import make_checker
+        from props.c10_harvest import clear_typing_caches
+        clear_typing_caches()
+        return render_src(progs[p], make_checker())
     fresh = {p: _in_child(lambda p=p: fresh_render(p)) for p in alpha}
     res.transitions += len(alpha)
     seqs = []
@@ -264,10 +283,13 @@ def _hist(res, tier, first, only=None):
 
     def run_history(seq):
         from pa.run import check, make_checker
+        from props.c10_harvest import clear_typing_caches
         ck = make_checker()
-        for h in seq:
-            check(progs[h], checker=ck)
-        return [render(check(progs[p], checker=ck)) for p in alpha]
+        out = []
+        for h in list(seq) + alpha:
+            clear_typing_caches()
+            out.append(render_src(progs[h], ck))
+        return out[len(seq):]
     for si, seq in enumerate(seqs):
         if only is not None and list(seq) != only[0]:
             continue
@@ -280,12 +302,38 @@ def _hist(res, tier, first, only=None):
             res.validated += 1
             res.outcomes["hist:%s" % ("same" if got == fresh[p] else "differs")] += 1
             if got != fresh[p]:
-                res.violation({"kind": "history-dependent-output", "template": str(tid(p)), "same_template_before": str(int(any(tid(h) == tid(p) and h != p for h in list(seq) + alpha[:alpha.index(p)])))},
+                res.violation({"kind": "history-dependent-output", "what": _what(fresh[p], got), "template": str(tid(p)), "same_template_before": str(int(any(tid(h) == tid(p) and h != p for h in list(seq) + alpha[:alpha.index(p)])))},
                               {"mode": "hist", "seq": list(seq), "prog": p, "order": 10 ** 8 + first * 10000 + si},
                               "in a process that first checked programs %s (one shared Checker) and then the alphabet up to it, program %d renders differently than in a fresh process:\n%s\n%s"
                               % (list(seq), p, progs[p][len(PRE):], _diff(fresh[p], got)))
                 break
     res.sample({"history": list(seqs[-1]), "alphabet": alpha})
+
+
+TYPING_PAIR = ("from typing import List, Union\ndef f(a: List[Union[str, int]]) -> None: ...\n",
+               "from typing import List, Union\ndef g(l: List[bytes]) -> None: ...\ndef f(a: List[Union[int, str]]) -> None:\n    g(a)\n")
+
+
+def _typing_cache(res):
+    """the one history explored *without* clearing CPython's typing caches: H spells List[Union[str, int]], P spells List[Union[int, str]]"""
+    _install()
+    import pa.run  # noqa: F401
+
+    def run(with_h):
+        from pa.run import make_checker
+        ck = make_checker()
+        if with_h:
+            render_src(TYPING_PAIR[0], ck)
+        return render_src(TYPING_PAIR[1], ck)
+    fresh = _in_child(lambda: run(False))
+    got = _in_child(lambda: run(True))
+    res.states += 1
+    res.transitions += 3
+    res.validated += 1
+    res.outcomes["typing-cache:%s" % ("same" if got == fresh else "differs")] += 1
+    if got != fresh:
+        res.violation({"kind": "history-dependent-output-through-typing-cache", "what": _what(fresh, got)}, {"mode": "typing", "order": 5 * 10 ** 9},
+                      "after a file that spells List[Union[str, int]], a file that spells List[Union[int, str]] renders differently (typing's subscription cache returns the first object):\n%s" % _diff(fresh, got))
 
 
 SEED_SCRIPT = r'''
@@ -298,7 +346,7 @@ from pa.run import check, make_checker
 out = []
 ck = make_checker()
 for src in c10.corpus(sys.argv[3]):
-    out.append(c10.render(check(src, checker=ck)))
+    out.append(c10.render_src(src, ck))
 print(json.dumps(out))
 '''
 
@@ -331,25 +379,41 @@ def _seeds(res, tier, only=None):
             res.validated += 1
             res.outcomes["seeds:%s" % ("same" if a == b else "differs")] += 1
             if a != b:
-                res.violation({"kind": "seed-dependent-output", "template": str(tid(pi))}, {"mode": "seeds", "seed": s, "prog": pi, "order": 10 ** 9 + s * 100 + pi},
-                              "PYTHONHASHSEED=0 and PYTHONHASHSEED=%d render program %d differently:\n%s\n%s" % (s, pi, progs[pi][len(PRE):], _diff([tuple(x) for x in a], [tuple(x) for x in b])))
+                res.violation({"kind": "seed-dependent-output", "what": _what(a, b), "template": str(tid(pi))}, {"mode": "seeds", "seed": s, "prog": pi, "order": 10 ** 9 + s * 100 + pi},
+                              "PYTHONHASHSEED=0 and PYTHONHASHSEED=%d render program %d differently:\n%s\n%s" % (s, pi, progs[pi][len(PRE):], _diff(a, b)))
     # conformance of the instrumentation: the instrumented identity run equals the uninstrumented seed-0 run
     _install()
     from pa.run import check, make_checker
     ck = make_checker()
     for pi, src in enumerate(progs):
-        got = [list(x) for x in render(check(src, checker=ck))]
+        got = render_src(src, ck)
         res.validated += 1
-        if json.loads(json.dumps(got)) != outs[0][pi]:
+        if got != outs[0][pi]:
             res.violation({"kind": "INSTRUMENTATION-NOT-CONFORMANT", "template": str(tid(pi))}, {"mode": "seeds", "seed": 0, "prog": pi, "order": 10 ** 9 + pi},
-                          "instrumented identity run differs from the uninstrumented run on program %d: %s" % (pi, _diff([tuple(x) for x in outs[0][pi]], [tuple(x) for x in got])))
+                          "instrumented identity run differs from the uninstrumented run on program %d: %s" % (pi, _diff(outs[0][pi], got)))
     res.sample({"seeds": sorted(outs), "programs": len(progs)})
+
+
+HS_STEP = 30
+HH_STEP = 12
 
 
 def run_unit(unit):
     kind, tier, i = unit
     res = UnitResult()
-    if kind == "sched":
+    if kind.startswith("h"):
+        from props import c10_harvest as hv
+        if kind == "hsched":
+            hv.hsched(res, tier, i, i + HS_STEP, _install())
+        elif kind == "hseeds":
+            hv.hseeds(res, tier)
+        else:
+            _install()
+            hv.hhist(res, tier, [i] if i < 0 else range(i, min(i + HH_STEP, len(hv.hcorpus()))), _in_child)
+        return res
+    if kind == "typing":
+        _typing_cache(res)
+    elif kind == "sched":
         _sched(res, tier, i)
     elif kind == "hist":
         _hist(res, tier, i)
@@ -361,7 +425,19 @@ def run_unit(unit):
 def replay(case):
     res = UnitResult()
     tier = "thorough"
-    if case["mode"] == "sched":
+    if case["mode"].startswith("h"):
+        from props import c10_harvest as hv
+        if case["mode"] == "hsched":
+            hv.hsched(res, tier, case["prog"], case["prog"] + 1, _install(), only=(case["prog"], case.get("policy")))
+        elif case["mode"] == "hseeds":
+            hv.hseeds(res, tier, only=case["seed"])
+        else:
+            _install()
+            hv.hhist(res, tier, [case["first"]], _in_child, only=(case["first"], case["prog"]))
+        return list(res.viol.values())
+    if case["mode"] == "typing":
+        _typing_cache(res)
+    elif case["mode"] == "sched":
         _sched(res, tier, case["prog"], only=case.get("policy"))
     elif case["mode"] == "hist":
         _hist(res, tier, HIST_ALPHA.index(case["seq"][0]), only=(case["seq"], case["prog"]))
